@@ -95,6 +95,21 @@ def _cols(doc, tref, data_only=False, formula_only=False):
   return out
 
 
+def formula_mentions(doc, tref, cid, target, _seen=None):
+  """Does the formula of column `cid` of table `tref` mention column `target`, directly or through other formula
+  columns of the table (any lookup counts as a mention: it may reach every row and column)?"""
+  import re as _re
+  seen = _seen if _seen is not None else set()
+  if cid in seen:
+    return False
+  seen.add(cid)
+  allf = {x['colId']: (x['formula'] or '') for x in doc.columns(tref) if x['isFormula']}
+  toks = set(_re.findall(r'[A-Za-z_]\w*', allf.get(cid, '')))
+  if target in toks or toks & set(['lookupRecords', 'lookupOne', 'all', 'PREVIOUS', 'NEXT', 'RANK', 'rec', 'RECORD']):
+    return True
+  return any(formula_mentions(doc, tref, t2, target, seen) for t2 in toks if t2 in allf)
+
+
 def formula_text(doc, tref, spec, self_col=None, max_ref=None):
   """spec = [form, a, b, c]. Always returns some valid-looking formula text for table `tref`.
   Excludes volatile / side-effecting functions (NOW, TODAY, RANDOM, REQUEST, PEEK, lookupOrAddDerived)."""
@@ -159,8 +174,9 @@ def formula_text(doc, tref, spec, self_col=None, max_ref=None):
   if form == 39: return 'int(str(%s) or "x")' % ('$' + c1 if c1 else '$id')   # ValueError for non-numeric text
   if form in (42, 43):
     # formulas that swallow exceptions (also those the engine raises to re-order evaluation)
-    allc = [x for x in _cols(doc, tref) if x['colId'] != self_col and x['colId'] != 'group']
-    fcs = [x for x in allc if x['isFormula']] or allc
+    # any formula column of the table whose formula does not (transitively) mention this column: no cycles
+    fcs = [x for x in _cols(doc, tref) if x['isFormula'] and x['colId'] != self_col and x['colId'] != 'group'
+           and not (self_col and formula_mentions(doc, tref, x['colId'], self_col))] or mycols
     if fcs:
       x = fcs[(a + c) % len(fcs)]
       if form == 42:
@@ -701,8 +717,11 @@ def r_trigger(doc, op):
   allc = _cols(doc, t['id'])
   deps = [x['id'] for x in _mask_pick(allc, op['t'])]
   when = int(op['c']) % 3
+  f = list(op['f'])
+  if int(op['a']) % 3 == 0:
+    f = [42 + int(op['b']) % 2] + f[1:]      # a trigger formula that swallows exceptions (IFERROR)
   return ['ModifyColumn', t['tableId'], c['colId'],
-          {'formula': formula_text(doc, t['id'], op['f'], self_col=c['colId'], max_ref=c['id']), 'recalcWhen': when,
+          {'formula': formula_text(doc, t['id'], f, self_col=c['colId'], max_ref=c['id']), 'recalcWhen': when,
            'recalcDeps': (['L'] + deps) if deps else None}]
 
 
@@ -890,7 +909,7 @@ PROFILES = {
   'formula': {
     'add': 12, 'update': 14, 'remove': 5,
     'addtable': 3, 'addcol': 4, 'addfcol': 12, 'addref': 5, 'rmcol': 4, 'rencol': 3, 'modtype': 3,
-    'modformula': 6, 'toggle': 2, 'rmtable': 1, 'rentable': 1, 'summary': 4, 'summaryupd': 2, 'revive': 7, 'rmref': 5,
+    'modformula': 6, 'toggle': 2, 'rmtable': 1, 'rentable': 1, 'summary': 4, 'summaryupd': 2, 'revive': 11, 'rmref': 8,
     'reverse': 1, 'meta_col': 2, 'displaycol': 1, 'choices': 1, 'trigger': 3, 'replace': 1,
   },
   'schema': {
@@ -990,6 +1009,18 @@ def prelude(focus=None):
       'chain': st.tuples(st.just(40), small, small, small).map(list),
       'peers': st.lists(st.integers(0, 4), min_size=2, max_size=4),
     })
+  if focus == 'triggers':
+    # a data column of Alpha gets a trigger formula over a formula column (half of the time one that swallows
+    # exceptions), so that record churn recalculates data cells that depend on cells being recalculated
+    return st.fixed_dictionaries({
+      'types': st.lists(st.integers(0, len(DATA_TYPES) - 1), min_size=2, max_size=4),
+      'types2': st.lists(st.integers(0, len(DATA_TYPES) - 1), min_size=1, max_size=2),
+      'ref': st.sampled_from([0, 1, 3]),
+      'rows': st.lists(st.lists(valspec(), min_size=1, max_size=4), min_size=0, max_size=3),
+      'rows2': st.lists(st.lists(valspec(), min_size=1, max_size=4), min_size=0, max_size=2),
+      'formulas': st.lists(st.tuples(st.just(0), fspec()).map(list), min_size=1, max_size=2),
+      'trig': st.tuples(st.integers(0, 7), st.integers(0, 2), st.integers(0, 3), st.integers(0, 63)).map(list),
+    })
   if focus == 'widgets':
     # a summary widget (own page) with a saved filter and sort on it, and a second plain widget: what the removal
     # of widgets / pages / columns has to clean up in more than one round
@@ -1047,6 +1078,21 @@ def run_prelude(doc, p):
       continue
     doc.apply([['AddColumn', tid, 'F%d' % i, {'type': 'Any', 'isFormula': True,
                                                'formula': formula_text(doc, tm[0]['id'], fs)}]])
+  if p.get('trig'):
+    sel, when, variant, depmask = [int(x) for x in p['trig']]
+    tm = [t for t in doc.tables_meta() if t['tableId'] == 'Alpha']
+    if tm:
+      dcols = _cols(doc, tm[0]['id'], data_only=True)
+      fcols = [c for c in _cols(doc, tm[0]['id']) if c['isFormula']]
+      pairs = [(c, f) for c in dcols for f in fcols if not formula_mentions(doc, tm[0]['id'], f['colId'], c['colId'])]
+      if pairs:
+        c, f = pairs[sel % len(pairs)]
+        f = f['colId']
+        text = ['IFERROR($%s, -1)' % f, '$%s' % f, 'IFERROR($%s, "e") if $id %% 2 else $%s' % (f, f),
+                'str($%s)' % f][variant % 4]
+        deps = [x['id'] for x in _mask_pick(_cols(doc, tm[0]['id']), depmask)]
+        doc.apply([['ModifyColumn', 'Alpha', c['colId'], {'formula': text, 'recalcWhen': when % 3,
+                                                          'recalcDeps': (['L'] + deps) if deps else None}]])
   if p.get('widgets'):
     mask, a, b = [int(x) for x in p['widgets']]
     for kind, opd in (('summary', {'k': 'summary', 'a': 0, 'b': mask, 'c': 0}),
